@@ -83,6 +83,29 @@ func furtherRules(c *core.Ctx, r *core.Report, rule string, want ...string) {
 	}, cons, need)
 }
 
+// initErrorRules: the error row of the initialization table (a failing before/after-initialization callback, init
+// method or AfterPropertiesSet ends initialization with an error whatever else it returns).
+func initErrorRules(c *core.Ctx, r *core.Report, rule string) {
+	sub := core.NewReport("C05", c.Tier, 0)
+	l := findLifecycle(c, sub, rule)
+	if l == nil {
+		r.Undecided(rule, "role:initialization", "", "initialization routine not found")
+		return
+	}
+	rs, _, und := initTable(c, l.initFn, 2)
+	cons := "init-table@" + core.FnName(l.initFn)
+	if und != "" {
+		r.Undecided(rule, cons, c.FnPos(l.initFn), "abstract interpretation left the model: "+und)
+		return
+	}
+	rs.report(c, r, l.initFn, func(row string) string {
+		if row == "error" {
+			return rule
+		}
+		return ""
+	}, cons, map[string]string{"error": initRows["error"]})
+}
+
 // injectRules: Property.Inject's table rows.
 func injectRules(c *core.Ctx, r *core.Report, rule string, want ...string) {
 	rs, _, und := injectTable(c, listLen(c))
